@@ -102,6 +102,22 @@ Proof.
   - rewrite Hs. cbn [rbind]. destruct s; cbn [xwrap rbind inj]; try reflexivity. exfalso. eapply Hnl; reflexivity.
 Qed.
 
+Lemma xstep_debugger m w k rest : ty k = tt_DebuggerToken -> parse_xstmt (S m) w (k :: rest) = Ok (XDebugger, skip_semi true rest).
+Proof. intros E. cbn [parse_xstmt]. rewrite E. reflexivity. Qed.
+
+Lemma xstep_with m w k rest : ty k = tt_WithToken ->
+  parse_xstmt (S m) w (k :: rest) =
+  (r1 <~ expect tt_OpenParenToken rest ;;
+   '(c, r2) <~ parse true prec_OpExpr r1 ;;
+   r3 <~ expect tt_CloseParenToken r2 ;;
+   '(s, r4) <~ parse_xstmt m w r3 ;;
+   Ok (XWith c s, skip_semi false r4)).
+Proof. intros E. cbn [parse_xstmt]. rewrite E. reflexivity. Qed.
+
+Lemma xstep_try m w k rest : ty k = tt_TryToken ->
+  parse_xstmt (S m) w (k :: rest) = try_arm (fun ts' => parse_xlist m w ts' []) rest.
+Proof. intros E. cbn [parse_xstmt]. rewrite E. reflexivity. Qed.
+
 Lemma xstep_for m w k rest : ty k = tt_ForToken ->
   parse_xstmt (S m) w (k :: rest) = for_arm (parse_xstmt m w) (fun ts' => parse_xlist m w ts' []) rest.
 Proof. intros E. cbn [parse_xstmt]. rewrite E. reflexivity. Qed.
@@ -213,14 +229,40 @@ Inductive xone : list token -> xstmt -> list token -> Prop :=
     fopt tt_CloseParenToken tp p (rp :: tb) -> first_is tt_OpenBraceToken tb = false -> first_is tt_SemicolonToken tb = false ->
     xone tb s rest -> no_same_line_semi rest ->
     xone (k :: lp :: ti) (XFor i c p [s]) rest
+  (* debugger ; *)
+| XO_debugger k r rest : ty k = tt_DebuggerToken -> term false r rest -> xone (k :: r) XDebugger rest
+  (* with ( Expression ) Statement *)
+| XO_with k lp cs c rp ts s rest :
+    ty k = tt_WithToken -> ty lp = tt_OpenParenToken -> derives true Expression cs c -> ty rp = tt_CloseParenToken ->
+    xone ts s rest -> no_same_line_semi rest ->
+    xone (k :: lp :: cs ++ rp :: ts) (XWith c s) rest
+  (* try Block Catch | try Block Finally | try Block Catch Finally;  Catch : catch [ ( BindingIdentifier ) ] Block *)
+| XO_try k ko tb b r2 c r3 f rest :
+    ty k = tt_TryToken -> ty ko = tt_OpenBraceToken -> xlist tb b r2 -> xcatch r2 c r3 -> xfin r3 f rest ->
+    (c <> None \/ f <> None) -> no_same_line_semi rest ->
+    xone (k :: ko :: tb) (XTry b c f) rest
 (* StatementList up to the '}' of a block *)
 with xlist : list token -> list xstmt -> list token -> Prop :=
 | XL_end kc rest : ty kc = tt_CloseBraceToken -> xlist (kc :: rest) [] rest
-| XL_cons ts s r l rest : first_is tt_CloseBraceToken ts = false -> xone ts s r -> xlist r l rest -> xlist ts (s :: l) rest.
+| XL_cons ts s r l rest : first_is tt_CloseBraceToken ts = false -> xone ts s r -> xlist r l rest -> xlist ts (s :: l) rest
+with xcatch : list token -> option (option (list Z) * list xstmt) -> list token -> Prop :=
+| XC_none r : first_is tt_CatchToken r = false -> xcatch r None r
+| XC_plain kc ko tb l rest : ty kc = tt_CatchToken -> ty ko = tt_OpenBraceToken -> xlist tb l rest ->
+    xcatch (kc :: ko :: tb) (Some (None, l)) rest
+| XC_param kc lp n rp ko tb l rest :
+    ty kc = tt_CatchToken -> ty lp = tt_OpenParenToken -> is_identifier (ty n) = true -> ty rp = tt_CloseParenToken ->
+    ty ko = tt_OpenBraceToken -> xlist tb l rest ->
+    xcatch (kc :: lp :: n :: rp :: ko :: tb) (Some (Some (data n), l)) rest
+with xfin : list token -> option (list xstmt) -> list token -> Prop :=
+| XF_none r : first_is tt_FinallyToken r = false -> xfin r None r
+| XF_some kf ko tb l rest : ty kf = tt_FinallyToken -> ty ko = tt_OpenBraceToken -> xlist tb l rest ->
+    xfin (kf :: ko :: tb) (Some l) rest.
 
 Scheme xone_mind := Induction for xone Sort Prop
-  with xlist_mind := Induction for xlist Sort Prop.
-Combined Scheme x_both_ind from xone_mind, xlist_mind.
+  with xlist_mind := Induction for xlist Sort Prop
+  with xcatch_mind := Induction for xcatch Sort Prop
+  with xfin_mind := Induction for xfin Sort Prop.
+Combined Scheme x_both_ind from xone_mind, xlist_mind, xcatch_mind, xfin_mind.
 
 Inductive xprog : list token -> list xstmt -> Prop :=
 | XP_nil : xprog [] []
@@ -235,6 +277,8 @@ Fixpoint tw (w : bool) (s : xstmt) : xstmt :=
   | XWhile c v => if w then XFor FNone (Some c) None (match tw w v with XBlock l => l | x => [x] end) else XWhile c (tw w v)
   | XFor i c p l => XFor i c p (map (tw w) l)
   | XDo v c => XDo (tw w v) c
+  | XWith c v => XWith c (tw w v)
+  | XTry b c f => XTry (map (tw w) b) (option_map (fun p => (fst p, map (tw w) (snd p))) c) (option_map (map (tw w)) f)
   | _ => s
   end.
 
@@ -396,17 +440,30 @@ Ltac for_head Hk Hlp Hfi Hc Hp :=
   destruct (fopt_ok _ _ _ _ (or_intror eq_refl) Hp) as [Ep Lp];
   cbn [length] in Li, Lc, Lp.
 
+Lemma xcatch_none r r3 : xcatch r None r3 -> r3 = r.
+Proof. intros H. inversion H; subst. reflexivity. Qed.
+
+Lemma xfin_some r f rest : xfin r f rest -> f <> None -> first_is tt_FinallyToken r = true.
+Proof. intros H Hn. inversion H; subst; [contradiction|]. cbn [first_is]. apply Z.eqb_eq. assumption. Qed.
+
+Definition PX w ts s rest := (length rest < length ts)%nat /\ forall m, (length ts - length rest <= m)%nat -> parse_xstmt (S m) w ts = Ok (tw w s, rest).
+Definition PL w ts l rest := (length rest < length ts)%nat /\
+  forall m acc, (length ts - length rest <= m)%nat -> parse_xlist (S m) w ts acc = Ok (rev acc ++ map (tw w) l, rest).
+Definition PC w ts (c : option (option (list Z) * list xstmt)) rest := (length rest <= length ts)%nat /\
+  forall m, (length ts - length rest <= m)%nat -> (c = None -> first_is tt_FinallyToken ts = true) ->
+    try_catch (fun ts' => parse_xlist (S m) w ts' []) ts = Ok (option_map (fun p : option (list Z) * list xstmt => (fst p, map (tw w) (snd p))) c, rest).
+Definition PF w ts (f : option (list xstmt)) rest := (length rest <= length ts)%nat /\
+  forall m, (length ts - length rest <= m)%nat ->
+    try_fin (fun ts' => parse_xlist (S m) w ts' []) ts = Ok (option_map (map (tw w)) f, rest).
+
 Lemma x_all w :
-  (forall ts s rest (x : xone ts s rest),
-     (length rest < length ts)%nat /\ forall m, (length ts - length rest <= m)%nat -> parse_xstmt (S m) w ts = Ok (tw w s, rest)) /\
-  (forall ts l rest (x : xlist ts l rest),
-     (length rest < length ts)%nat /\
-     forall m acc, (length ts - length rest <= m)%nat -> parse_xlist (S m) w ts acc = Ok (rev acc ++ map (tw w) l, rest)).
+  (forall ts s rest (x : xone ts s rest), PX w ts s rest) /\
+  (forall ts l rest (x : xlist ts l rest), PL w ts l rest) /\
+  (forall ts c rest (x : xcatch ts c rest), PC w ts c rest) /\
+  (forall ts f rest (x : xfin ts f rest), PF w ts f rest).
 Proof.
-  apply (x_both_ind
-    (fun ts s rest _ => (length rest < length ts)%nat /\ forall m, (length ts - length rest <= m)%nat -> parse_xstmt (S m) w ts = Ok (tw w s, rest))
-    (fun ts l rest _ => (length rest < length ts)%nat /\
-       forall m acc, (length ts - length rest <= m)%nat -> parse_xlist (S m) w ts acc = Ok (rev acc ++ map (tw w) l, rest))).
+  apply (x_both_ind (fun ts s rest _ => PX w ts s rest) (fun ts l rest _ => PL w ts l rest)
+           (fun ts c rest _ => PC w ts c rest) (fun ts f rest _ => PF w ts f rest)); unfold PX, PL, PC, PF.
   - (* base *)
     intros ts s rest Ho Hnl. destruct (one_stmt _ _ _ Ho) as [Hl Hs]. split; [exact Hl|]. intros m _.
     rewrite (tw_inj _ _ Hnl).
@@ -527,6 +584,24 @@ Proof.
     destruct m as [|m']; [lia|].
     destruct tb as [|a ra]; [cbn [length] in IHl; lia|]. cbn [first_is] in Hnb, Hns. rewrite Hnb, Hns.
     rewrite IH by lia. cbn [rbind tw map]. rewrite (skip_same_line _ Hsl). reflexivity.
+  - (* debugger *)
+    intros k r rest Hk Ht. destruct (term_ok _ _ _ Ht) as [Hsk [_ [_ Hl]]].
+    split; [cbn [length]; lia|]. intros m _. rewrite (xstep_debugger _ _ _ _ Hk). cbn [tw]. rewrite Hsk. reflexivity.
+  - (* with *)
+    intros k lp cs c rp ts s rest Hk Hlp d Hrp Hone [IHl IH] Hsl.
+    split; [cbn [length]; rewrite app_length; cbn [length]; lia|]. intros m Hm.
+    rewrite (xstep_with _ _ _ _ Hk). rewrite (expect_ok_tok _ _ _ Hlp). cbn [rbind].
+    rewrite (cond_parse _ _ _ _ d Hrp). cbn [rbind]. rewrite (expect_ok_tok _ _ _ Hrp). cbn [rbind].
+    cbn [length] in Hm. rewrite app_length in Hm. cbn [length] in Hm. destruct m as [|m']; [lia|].
+    rewrite IH by lia. cbn [rbind tw]. rewrite (skip_same_line _ Hsl). reflexivity.
+  - (* try *)
+    intros k ko tb b r2 c r3 f rest Hk Hko Hlb [IHlb IHb] Hc [IHlc IHc] Hf [IHlf IHf] Hne Hsl.
+    split; [cbn [length]; lia|]. intros m Hm. cbn [length] in Hm.
+    rewrite (xstep_try _ _ _ _ Hk). unfold try_arm. rewrite (expect_ok_tok _ _ _ Hko). cbn [rbind]. cbv beta.
+    destruct m as [|m']; [lia|]. rewrite (IHb m' []) by lia. cbn [rbind rev app].
+    rewrite IHc; [|lia|].
+    + cbn [rbind]. rewrite IHf by lia. cbn [rbind tw]. rewrite (skip_same_line _ Hsl). reflexivity.
+    + intros Ec. subst c. rewrite (xcatch_none _ _ Hc) in Hf. apply (xfin_some _ _ _ Hf). destruct Hne as [H|H]; [contradiction|exact H].
   - (* end of the list *)
     intros kc rest Hkc. split; [cbn [length]; lia|]. intros m acc _. cbn [parse_xlist]. rewrite Hkc, Z.eqb_refl.
     cbn [map]. rewrite app_nil_r. reflexivity.
@@ -535,6 +610,26 @@ Proof.
     destruct ts as [|k ts']; [cbn [length] in IHl; lia|]. cbn [first_is] in Hf.
     cbn [parse_xlist]. rewrite Hf. destruct m as [|m']; [lia|].
     rewrite IH by lia. cbn [rbind]. rewrite IHL by lia. cbn [rev map]. rewrite <- app_assoc. reflexivity.
+  - (* no catch *)
+    intros r Hf. split; [lia|]. intros m _ Hn. specialize (Hn eq_refl).
+    destruct (first_is_true _ _ Hn) as [kf [r' [E Hk]]]. subst r. cbn [first_is] in Hf. cbn [try_catch]. rewrite Hf.
+    assert (E2 : (ty kf =? tt_FinallyToken) = true) by (rewrite Hk; reflexivity). rewrite E2. reflexivity.
+  - (* catch { } *)
+    intros kc ko tb l rest Hkc Hko Hl [IHl IH]. split; [cbn [length]; lia|]. intros m Hm _. cbn [length] in Hm.
+    destruct tb as [|t1 tb']; [cbn [length] in IHl; lia|].
+    cbn [try_catch]. rewrite Hkc, Z.eqb_refl.
+    assert (E1 : (ty ko =? tt_OpenParenToken) = false) by (rewrite Hko; reflexivity). rewrite E1. cbn [rbind].
+    rewrite (expect_ok_tok _ _ _ Hko). cbn [rbind]. cbv beta. rewrite (IH m []) by (cbn [length] in *; lia). reflexivity.
+  - (* catch ( e ) { } *)
+    intros kc lp n rp ko tb l rest Hkc Hlp Hn Hrp Hko Hl [IHl IH]. split; [cbn [length]; lia|]. intros m Hm _. cbn [length] in Hm.
+    cbn [try_catch]. rewrite Hkc, Z.eqb_refl. rewrite Hlp, Z.eqb_refl. rewrite (ident_not_pat _ Hn), Hn. cbn [negb].
+    rewrite (expect_ok_tok _ _ _ Hrp). cbn [rbind]. rewrite (expect_ok_tok _ _ _ Hko). cbn [rbind]. cbv beta.
+    rewrite (IH m []) by lia. reflexivity.
+  - (* no finally *)
+    intros r Hf. split; [lia|]. intros m _. destruct r as [|a ra]; [reflexivity|]. cbn [first_is] in Hf. cbn [try_fin]. rewrite Hf. reflexivity.
+  - (* finally { } *)
+    intros kf ko tb l rest Hkf Hko Hl [IHl IH]. split; [cbn [length]; lia|]. intros m Hm. cbn [length] in Hm.
+    cbn [try_fin]. rewrite Hkf, Z.eqb_refl. rewrite (expect_ok_tok _ _ _ Hko). cbn [rbind]. cbv beta. rewrite (IH m []) by lia. reflexivity.
 Qed.
 
 Lemma xprog_module w ts l : xprog ts l ->
@@ -558,6 +653,13 @@ Proof.
   - f_equal. apply tw_false.
   - f_equal. induction l as [|a l IH]; [reflexivity|]. cbn [map]. rewrite (tw_false a), IH. reflexivity.
   - f_equal. apply tw_false.
+  - f_equal. apply tw_false.
+  - f_equal.
+    + induction b as [|a l IH]; [reflexivity|]. cbn [map]. rewrite (tw_false a), IH. reflexivity.
+    + destruct c as [[n l]|]; [|reflexivity]. cbn [option_map fst snd]. f_equal. f_equal.
+      induction l as [|a l IH]; [reflexivity|]. cbn [map]. rewrite (tw_false a), IH. reflexivity.
+    + destruct f as [l|]; [|reflexivity]. cbn [option_map]. f_equal.
+      induction l as [|a l IH]; [reflexivity|]. cbn [map]. rewrite (tw_false a), IH. reflexivity.
 Qed.
 
 Lemma map_tw_false l : map (tw false) l = l.
@@ -577,7 +679,7 @@ Proof. intros ts l H. unfold parse_xprogram. rewrite (xprog_module true _ _ H) b
      var i = a , b ;
      for ( i = a ; i ; i ++ ) { if ( b ) break ; else continue l ; }
      do a ; while ( b )
-     l : while ( a ) throw b ; { } a = b                                                                                     *)
+     l : while ( a ) throw b ; { } debugger ; with ( a ) b ; try { } catch ( e ) { } finally { } a = b                                                                                     *)
 
 Definition kw (t : Z) : token := mkTok t false (tok_bytes t).
 Definition idi : token := idt 105.
@@ -593,8 +695,13 @@ Definition x_s3 : list token := [kw tt_DoToken; ida; sm; kw tt_WhileToken; kw tt
 Definition x_s4 : list token :=
   [mkTok tt_IdentifierToken true [108]; colon; kw tt_WhileToken; kw tt_OpenParenToken; ida; kw tt_CloseParenToken; kw tt_ThrowToken; idb; sm].
 Definition x_s5 : list token := [kw tt_OpenBraceToken; kw tt_CloseBraceToken].
+Definition x_s7 : list token := [kw tt_DebuggerToken; sm].
+Definition x_s8 : list token := [kw tt_WithToken; kw tt_OpenParenToken; ida; kw tt_CloseParenToken; idb; sm].
+Definition x_s9 : list token :=
+  [kw tt_TryToken; kw tt_OpenBraceToken; kw tt_CloseBraceToken; kw tt_CatchToken; kw tt_OpenParenToken; idt 101; kw tt_CloseParenToken;
+   kw tt_OpenBraceToken; kw tt_CloseBraceToken; kw tt_FinallyToken; kw tt_OpenBraceToken; kw tt_CloseBraceToken].
 Definition x_s6 : list token := [ida; kw tt_EqToken; idb].
-Definition x_tokens : list token := x_s1 ++ x_s2 ++ x_s3 ++ x_s4 ++ x_s5 ++ x_s6.
+Definition x_tokens : list token := x_s1 ++ x_s2 ++ x_s3 ++ x_s4 ++ x_s5 ++ x_s7 ++ x_s8 ++ x_s9 ++ x_s6.
 
 Definition vi : expr := EVar [105].
 Definition x_stmts : list xstmt :=
@@ -604,6 +711,9 @@ Definition x_stmts : list xstmt :=
     XDo (XExpr va) vb;
     XLabel [108] (XWhile va (XThrow vb));
     XBlock [];
+    XDebugger;
+    XWith va (XExpr vb);
+    XTry [] (Some (Some [101], [])) (Some []);
     XExpr (EBinary tt_EqToken va vb) ].
 
 Example x_example : parse_xprogram false x_tokens = Ok x_stmts.
@@ -622,38 +732,55 @@ Example x_example_derivable : xprog x_tokens x_stmts.
 Proof.
   unfold x_tokens, x_stmts.
   (* var i = a , b ; *)
-  apply (XP_cons _ _ (x_s2 ++ x_s3 ++ x_s4 ++ x_s5 ++ x_s6)).
-  { apply (XO_var (kw tt_VarToken) _ _ (sm :: x_s2 ++ x_s3 ++ x_s4 ++ x_s5 ++ x_s6)); [reflexivity| |apply T_semi; reflexivity].
+  apply (XP_cons _ _ (x_s2 ++ x_s3 ++ x_s4 ++ x_s5 ++ x_s7 ++ x_s8 ++ x_s9 ++ x_s6)).
+  { apply (XO_var (kw tt_VarToken) _ _ (sm :: x_s2 ++ x_s3 ++ x_s4 ++ x_s5 ++ x_s7 ++ x_s8 ++ x_s9 ++ x_s6)); [reflexivity| |apply T_semi; reflexivity].
     apply (V_more_init true idi (kw tt_EqToken) [ida] va (kw tt_CommaToken)); [reflexivity|reflexivity|apply dA_ident|reflexivity|].
     apply V_one; reflexivity. }
   (* for ( i = a ; i ; i ++ ) { if ( b ) break ; else continue l ; } *)
-  apply (XP_cons _ _ (x_s3 ++ x_s4 ++ x_s5 ++ x_s6)).
+  apply (XP_cons _ _ (x_s3 ++ x_s4 ++ x_s5 ++ x_s7 ++ x_s8 ++ x_s9 ++ x_s6)).
   { eapply (XO_for_block (kw tt_ForToken) (kw tt_OpenParenToken) _ _ sm _ _ sm _ _ (kw tt_CloseParenToken) (kw tt_OpenBraceToken)); try reflexivity.
     - apply (FI_expr [idi; kw tt_EqToken; ida] _ (sm :: _)); [apply dE; vm_compute; reflexivity|reflexivity|reflexivity].
     - apply (FO_some tt_SemicolonToken [idi] _ (sm :: _)); [apply dE; vm_compute; reflexivity|reflexivity].
     - apply (FO_some tt_CloseParenToken [idi; kw tt_IncrToken] _ (kw tt_CloseParenToken :: _)); [apply dE; vm_compute; reflexivity|reflexivity].
-    - apply (XL_cons _ _ (kw tt_CloseBraceToken :: x_s3 ++ x_s4 ++ x_s5 ++ x_s6)); [reflexivity| |apply XL_end; reflexivity].
+    - apply (XL_cons _ _ (kw tt_CloseBraceToken :: x_s3 ++ x_s4 ++ x_s5 ++ x_s7 ++ x_s8 ++ x_s9 ++ x_s6)); [reflexivity| |apply XL_end; reflexivity].
       eapply (XO_if_else (kw tt_IfToken) (kw tt_OpenParenToken) [idb] vb (kw tt_CloseParenToken) _ _ (kw tt_ElseToken)); try reflexivity.
       + apply dE. vm_compute. reflexivity.
       + apply (XO_branch (kw tt_BreakToken) (sm :: _)); [left; reflexivity| |apply T_semi; reflexivity].
         intros c r' E. inversion E; subst. right. repeat split; vm_compute; discriminate.
       + apply (XO_branch_label (kw tt_ContinueToken) idl0 (sm :: _)); [right; reflexivity|reflexivity|reflexivity|apply T_semi; reflexivity]. }
   (* do a ; while ( b )   — no ';': the next statement starts a new line *)
-  apply (XP_cons _ _ (x_s4 ++ x_s5 ++ x_s6)).
+  apply (XP_cons _ _ (x_s4 ++ x_s5 ++ x_s7 ++ x_s8 ++ x_s9 ++ x_s6)).
   { eapply (XO_do_asi (kw tt_DoToken) _ _ (kw tt_WhileToken) (kw tt_OpenParenToken) [idb] vb (kw tt_CloseParenToken)); try reflexivity.
     - apply (XO_base _ (SExpr va)); [|intros; discriminate].
       apply (O_semi [ida] va sm); [split; [apply dE; vm_compute; reflexivity|reflexivity]|reflexivity].
     - apply dE. vm_compute. reflexivity. }
   (* l : while ( a ) throw b ; *)
-  apply (XP_cons _ _ (x_s5 ++ x_s6)).
+  apply (XP_cons _ _ (x_s5 ++ x_s7 ++ x_s8 ++ x_s9 ++ x_s6)).
   { apply XO_label; [repeat split; try reflexivity; vm_compute; discriminate|reflexivity| |reflexivity].
     eapply (XO_while (kw tt_WhileToken) (kw tt_OpenParenToken) [ida] va (kw tt_CloseParenToken)); try reflexivity.
     - apply dE. vm_compute. reflexivity.
     - apply (XO_throw (kw tt_ThrowToken) [idb] vb (sm :: _)); [reflexivity|apply dE; vm_compute; reflexivity| |apply T_semi; reflexivity].
       intros c xs' E. inversion E; subst. reflexivity. }
   (* { } *)
-  apply (XP_cons _ _ x_s6).
+  apply (XP_cons _ _ (x_s7 ++ x_s8 ++ x_s9 ++ x_s6)).
   { apply XO_block; [reflexivity|apply XL_end; reflexivity|reflexivity]. }
+  (* debugger ; *)
+  apply (XP_cons _ _ (x_s8 ++ x_s9 ++ x_s6)).
+  { apply (XO_debugger (kw tt_DebuggerToken) (sm :: _)); [reflexivity|apply T_semi; reflexivity]. }
+  (* with ( a ) b ; *)
+  apply (XP_cons _ _ (x_s9 ++ x_s6)).
+  { eapply (XO_with (kw tt_WithToken) (kw tt_OpenParenToken) [ida] va (kw tt_CloseParenToken)); try reflexivity.
+    - apply dE. vm_compute. reflexivity.
+    - apply (XO_base _ (SExpr vb)); [|intros; discriminate].
+      apply (O_semi [idb] vb sm); [split; [apply dE; vm_compute; reflexivity|reflexivity]|reflexivity]. }
+  (* try { } catch ( e ) { } finally { } *)
+  apply (XP_cons _ _ x_s6).
+  { eapply (XO_try (kw tt_TryToken) (kw tt_OpenBraceToken)); try reflexivity.
+    - apply XL_end. reflexivity.
+    - apply (XC_param (kw tt_CatchToken) (kw tt_OpenParenToken) (idt 101) (kw tt_CloseParenToken) (kw tt_OpenBraceToken)); try reflexivity.
+      apply XL_end. reflexivity.
+    - apply (XF_some (kw tt_FinallyToken) (kw tt_OpenBraceToken)); try reflexivity. apply XL_end. reflexivity.
+    - left. discriminate. }
   (* a = b *)
   apply (XP_cons _ _ []); [|apply XP_nil].
   apply (XO_base x_s6 (SExpr (EBinary tt_EqToken va vb))); [|intros; discriminate].
